@@ -190,10 +190,9 @@ def wrapBuf (nw bs : Nat) (buf1 : List Int) : List Int := setSlice buf1 0 (slice
 
 /-- `fix_bitshift(cbuffer[nwrap:], blocksize, bitshift, ftype)` -/
 def fixBuf (h : Hdr) (shift bs : Nat) (buf2 : List Int) : List Int :=
-  let nw := h.nwrap
   if h.ftype = TYPE_AU1 ∨ h.ftype = TYPE_AU2 then
-    setSlice buf2 nw ((slice buf2 nw (nw + bs)).map (fixSample h.ftype shift))
-  else if shift ≠ 0 then buf2.take nw ++ (buf2.drop nw).map (fun (v : Int) => v <<< shift)
+    setSlice buf2 h.nwrap ((slice buf2 h.nwrap (h.nwrap + bs)).map (fixSample h.ftype shift))
+  else if shift ≠ 0 then buf2.take h.nwrap ++ (buf2.drop h.nwrap).map (fun (v : Int) => v <<< shift)
   else buf2
 
 /-- wrap, `fix_bitshift`, store, and (after the last channel) interleave into the output -/
@@ -385,25 +384,33 @@ def runBlock (pred : List Int → Int) : List Int → List Int → List Int
   | [], hist => hist
   | r :: rs, hist => runBlock pred rs ((r + pred hist) :: hist)
 
+/-- the channel's history after a block command -/
+def semHist (h : Hdr) (ss : SSt) : Cmd → List Int
+  | .diff k _ res =>
+    let sc := ss.chans.getD ss.chan default
+    runBlock (predDiff k (semCoffset h ss.shift sc.means)) res sc.hist
+  | .qlpc _ coefs res =>
+    let sc := ss.chans.getD ss.chan default
+    runBlock (predLpc h.lpcqoffset coefs (semCoffset h ss.shift sc.means)) res sc.hist
+  | _ => List.replicate ss.bs 0 ++ (ss.chans.getD ss.chan default).hist
+
+/-- book-keeping after a block: block mean, fix-up, frame assembly -/
+def semFinish (h : Hdr) (convert : Bool) (ss : SSt) (hist' : List Int) : SSt :=
+  let sc := ss.chans.getD ss.chan default
+  let blk := (hist'.take ss.bs).reverse
+  let means' := if h.nmean > 0 then blockMean h ss.bs ss.shift blk :: sc.means else sc.means
+  let outBlk := blk.map (fixSample h.ftype ss.shift)
+  let chans := ss.chans.set ss.chan ⟨hist', means'⟩
+  if ss.chan + 1 = h.nchan then
+    { ss with chans := chans, chan := 0, frame := [],
+              out := ss.out ++ (interleave ss.bs (ss.frame ++ [outBlk])).map (toPcm convert h.ftype) }
+  else
+    { ss with chans := chans, chan := ss.chan + 1, frame := ss.frame ++ [outBlk] }
+
 def semCmd (h : Hdr) (convert : Bool) (ss : SSt) : Cmd → SSt
   | .blocksize n => { ss with bs := n }
   | .bitshift n => { ss with shift := n }
-  | c =>
-    let sc := ss.chans.getD ss.chan default
-    let coff := semCoffset h ss.shift sc.means
-    let hist' := match c with
-      | .diff k _ res => runBlock (predDiff k coff) res sc.hist
-      | .qlpc _ coefs res => runBlock (predLpc h.lpcqoffset coefs coff) res sc.hist
-      | _ => List.replicate ss.bs 0 ++ sc.hist
-    let blk := (hist'.take ss.bs).reverse
-    let means' := if h.nmean > 0 then blockMean h ss.bs ss.shift blk :: sc.means else sc.means
-    let outBlk := blk.map (fixSample h.ftype ss.shift)
-    let chans := ss.chans.set ss.chan ⟨hist', means'⟩
-    if ss.chan + 1 = h.nchan then
-      { ss with chans := chans, chan := 0, frame := [],
-                out := ss.out ++ (interleave ss.bs (ss.frame ++ [outBlk])).map (toPcm convert h.ftype) }
-    else
-      { ss with chans := chans, chan := ss.chan + 1, frame := ss.frame ++ [outBlk] }
+  | c => semFinish h convert ss (semHist h ss c)
 
 def initS (h : Hdr) : SSt :=
   { bs := h.bs0, shift := 0, chan := 0, frame := [], out := [],
